@@ -130,6 +130,17 @@ def run_bfs(driver, pool, agg, tier, seed, log):
     agg.counts['bfs_depth_completed'] = level
     agg.counts['bfs_frontier_left_unexpanded_at_bound'] = len(frontier)
     agg.states.update(short_hash(repr(k), 16) for k in seen)
+    # determinism of the search itself: the root expansions are repeated in fresh processes
+    first = [dict(root=r, history=[]) for r in roots][:3]
+    if first and not agg.harness_errors:
+        base = pool.map(first, func='bfs_expand')
+        again = pool.map([dict(t, fresh=True) for t in first], func='bfs_expand')
+        for t, a, b in zip(first, base, again):
+            da = (a or {}).get('digest'), sorted(s_['canon'] for s_ in (a or {}).get('succ', ()))
+            db_ = (b or {}).get('digest'), sorted(s_['canon'] for s_ in (b or {}).get('succ', ()))
+            agg.counts['determinism_reruns_bfs'] += 1
+            if da != db_:
+                agg.harness_errors.append(('nondeterminism: BFS root expansion differs in a fresh process', t))
 
 
 def run_check(pid, tier, seed, workers, quiet=False):
